@@ -85,8 +85,13 @@ impl StorageImpl {
         match self {
             StorageImpl::Mmap(mmap) => {
                 debug_assert!(offset + dest.len() <= mmap.len());
-                let src = &mmap[offset..offset + dest.len()];
-                dest.copy_from_slice(src);
+                // A damaged header can announce a payload that extends past the file. Behave like
+                // the FD backend's short read (the rest of `dest` keeps its content) instead of
+                // panicking on the slice; the checksum then rejects the entry.
+                let end = offset.saturating_add(dest.len()).min(mmap.len());
+                if offset < end {
+                    dest[..end - offset].copy_from_slice(&mmap[offset..end]);
+                }
             }
             StorageImpl::Fd(fd) => fd.read(offset, dest),
         }
